@@ -14,6 +14,7 @@ mod bip;
 mod lists;
 mod capture;
 mod solve;
+mod syntax;
 
 use serde_json::Value;
 
@@ -40,6 +41,7 @@ pub fn props_of(case: &Value) -> Vec<&'static str> {
         "bip" => bip::props_of(case),
         "mklist" | "rename" => lists::props_of(case),
         "solve" => solve::props_of(case),
+        t if t.starts_with("syn-") => syntax::props_of(case),
         _ => vec![],
     }
 }
@@ -50,6 +52,7 @@ pub fn run_case(case: &Value) -> Vec<Obs> {
         "unify" => unify::replay(case),
         "bip" => bip::replay(case),
         "solve" => solve::replay(case),
+        t if t.starts_with("syn-") => syntax::replay(case),
         "mklist" => lists::replay_mklist(case),
         "rename" => lists::replay_rename(case),
         "atoms" => bip::check_atoms(case),
